@@ -36,7 +36,7 @@ type c12MapCase struct {
 
 type c12IOCase struct {
 	Cmd   c12Cmd `json:"cmd"`
-	In    string `json:"in"`  // stdin | dash | file
+	In    string `json:"in"`  // stdin | dash | file | stdin-chunked
 	Out   string `json:"out"` // stdout | file | existing-file
 	Debug bool   `json:"debug"`
 }
@@ -85,9 +85,9 @@ const (
 )
 
 const (
-	c12UserChords = "- name: UserA\n  meta:\n    display: ua\n  extends: MajorTriad\n  attributes:\n    - Perfect5\n    - Major9\n    - UA\n- name: UserB\n  meta:\n    display: ub\n  extends: ua\n  attributes:\n    - Major3\n    - Minor7\n- name: UserC\n  meta:\n    display: uc\n  extends: m7\n  attributes:\n    - Minor7\n    - Minor3\n"
+	c12UserChords = "- name: UserA\n  meta:\n    display: ua\n  extends: MajorTriad\n  attributes:\n    - Perfect5\n    - Major9\n    - UA\n- name: UserB\n  meta:\n    display: ub\n  extends: ua\n  attributes:\n    - Major3\n    - Minor7\n- name: UserC\n  meta:\n    display: uc\n  extends: m7\n  attributes:\n    - Minor7\n    - Minor3\n- name: UserSeven\n  meta:\n    display: \"7\"\n  attributes:\n    - Perfect1\n    - Perfect4\n- name: MinorTriad\n  meta:\n    display: umin\n  attributes:\n    - Perfect1\n    - Minor3\n"
 	c12UserAttrs  = "- name: UA\n  degree: \"#11\"\n- name: UB\n  degree: \"b13\"\n"
-	c12UserDoc    = "- chord:\n    degree: \"1\"\n    name: \"ua\"\n  values:\n    - \"1\"\n- chord:\n    degree: \"4\"\n    name: \"UserB\"\n    base: \"5\"\n  values:\n    - \"1\"\n- chord:\n    degree: \"5\"\n    name: \"uc\"\n  values:\n    - \"1\"\n"
+	c12UserDoc    = "- chord:\n    degree: \"1\"\n    name: \"ua\"\n  values:\n    - \"1\"\n- chord:\n    degree: \"4\"\n    name: \"UserB\"\n    base: \"5\"\n  values:\n    - \"1\"\n- chord:\n    degree: \"5\"\n    name: \"uc\"\n  values:\n    - \"1\"\n- chord:\n    degree: \"5\"\n    name: \"7\"\n  values:\n    - \"1\"\n- chord:\n    degree: \"2\"\n    name: \"m\"\n  values:\n    - \"1\"\n- chord:\n    degree: \"2\"\n    name: \"DominantSeventh\"\n  values:\n    - \"1\"\n"
 )
 
 var (
@@ -115,6 +115,8 @@ func c12Commands(thorough bool) []c12Cmd {
 		{"info-chord-describe-user", []string{"info", "chord", "describe", "-t", "C_ua", "--chord", chordFile, "--attr", attrFile}, ""},
 		{"info-chord-describe-user", []string{"info", "chord", "describe", "-t", "Eb_UserB", "--chord", chordFile, "--attr", attrFile, "-s"}, ""},
 		{"info-chord-describe-user", []string{"info", "chord", "describe", "-t", "F#_uc", "--chord", chordFile, "--attr", attrFile}, ""},
+		{"info-chord-describe-user", []string{"info", "chord", "describe", "-t", "G_7", "--chord", chordFile, "--attr", attrFile}, ""},
+		{"info-chord-describe-user", []string{"info", "chord", "describe", "-t", "Dm", "--chord", chordFile, "--attr", attrFile}, ""},
 		{"info-chord-list-user", []string{"info", "chord", "list", "--chord", chordFile, "--attr", attrFile}, ""},
 		{"info-attr-list-user", []string{"info", "attr", "list", "--attr", attrFile}, ""},
 		{"write-user", []string{"write", "--chord", chordFile, "--attr", attrFile}, c12UserDoc},
@@ -281,7 +283,11 @@ func c12IOEval(e *Env, c c12IOCase, base *runOut) {
 	if c.Debug {
 		args = append(args, "--debug")
 	}
-	r := cli.Run(cli.Opt{Stdin: []byte(stdin)}, args...)
+	chunks := 0
+	if c.In == "stdin-chunked" {
+		chunks = 3
+	}
+	r := cli.Run(cli.Opt{Stdin: []byte(stdin), StdinChunks: chunks}, args...)
 	fail := func(class, msg string) {
 		e.R.Fail(ev.Fail{Class: class, Msg: fmt.Sprintf("crd %s [input by %s, output to %s, debug %v]: %s", c12Key(c.Cmd), c.In, c.Out, c.Debug, msg), Kind: "io-path", Case: c})
 	}
@@ -541,6 +547,9 @@ func runC12(e *Env) {
 			}
 			e.R.NonTrivial("sched" + fmt.Sprint(i))
 		}
+		if execs == 0 && exh {
+			panic("C12 harness: the schedule exploration ran no execution")
+		}
 		e.R.AddPart(ev.Part{Name: "schedules", Enumerated: fmt.Sprintf("ASTTypeClassifier.Classify under the cooperative scheduler (%d synchronisation sites rewritten in %v): all interleavings for trees of <= 2 chords; preemption-bounded for 8 and 40 chords (consistent, inconsistent at the 2nd/last chord and in a bass; > 100 nodes so that the producer blocks on the full buffer); outcome compared with a sequential reference walk, deadlock and panic detection, failing schedules replayed twice", sres.Points, sres.Rewritten), Executions: execs, States: int64(len(trees)), Transitions: execs, Exhaustive: exh, Note: strings.Join(notes, " | ")})
 		e.R.Sample(map[string]any{"part": "schedules", "tree": "C[1] 2[1]", "schedule": "[0 0 1 0 1 ...] = index into the enabled-thread list at every synchronisation point", "oracle": "error (inconsistent), no deadlock, no panic"})
 	}
@@ -553,7 +562,7 @@ func runC12(e *Env) {
 		}
 		ins := []string{"stdin"}
 		if c.Input != "" {
-			ins = []string{"stdin", "dash", "file"}
+			ins = []string{"stdin", "dash", "file", "stdin-chunked"}
 		}
 		for _, in := range ins {
 			for _, out := range []string{"stdout", "file", "existing-file"} {
@@ -568,7 +577,7 @@ func runC12(e *Env) {
 		e.R.Trace(1)
 		e.R.NonTrivial("io" + fmt.Sprint(i))
 	})
-	e.R.AddPart(ev.Part{Name: "io-paths", Enumerated: "every data-producing command x input by {stdin, -, FILE} (where it reads one) x output to {stdout, -o new file, -o existing longer file} x --debug {off, on}: result bytes and status equal to stdin->stdout", Executions: int64(len(ios)), Exhaustive: true})
+	e.R.AddPart(ev.Part{Name: "io-paths", Enumerated: "every data-producing command x input by {stdin, -, FILE, stdin delivered in three pieces by a slow writer} (where it reads one) x output to {stdout, -o new file, -o existing longer file} x --debug {off, on}: result bytes and status equal to stdin->stdout", Executions: int64(len(ios)), Exhaustive: true})
 
 	// ---- (4) supplementary, not deciding: repetition under GOMAXPROCS 1, 2, 16
 	var reps []c12Cmd
